@@ -402,7 +402,7 @@ class WebSocket:
         the WebSocket is disconnected.
         """
 
-        self._require_accepted()
+        self._require_accepted(receiving=True)
 
         event = await self._receive()
 
@@ -426,7 +426,7 @@ class WebSocket:
         the WebSocket is disconnected.
         """
 
-        self._require_accepted()
+        self._require_accepted(receiving=True)
 
         event = await self._receive()
 
@@ -450,7 +450,7 @@ class WebSocket:
         to deserialize the object (see also: :ref:`ws_media_handlers`).
         """
 
-        self._require_accepted()
+        self._require_accepted(receiving=True)
 
         event = await self._receive()
 
@@ -528,12 +528,24 @@ class WebSocket:
 
         return event
 
-    def _require_accepted(self) -> None:
+    def _require_accepted(self, receiving: bool = False) -> None:
         if self._state == _WebSocketState.HANDSHAKE:
             raise errors.OperationNotAllowed(
                 'WebSocket connection has not yet been accepted'
             )
         elif self._state == _WebSocketState.CLOSED:
+            # NOTE: A failed send marks the connection as closed as soon as
+            #   the client is known to be gone, but the messages that the
+            #   client had sent before disconnecting may still be waiting in
+            #   the receive queue (followed by the disconnect event itself).
+            if (
+                receiving
+                and self._buffered_receiver.client_disconnected
+                and self._buffered_receiver._pump_task is not None
+                and self._buffered_receiver._messages
+            ):
+                return
+
             raise errors.WebSocketDisconnected(self._close_code)
 
     def _translate_webserver_error(self, ex: Exception) -> Optional[Exception]:
